@@ -289,7 +289,7 @@ func init() {
 			if tier == "thorough" {
 				return 30000
 			}
-			return 900
+			return 3000
 		},
 		Run:       c17Run,
 		MustProbe: []string{"invalid_request", "entry_created", "entry_reused", "io_fault_fired", "persistent_io_fault", "preexisting_entry_same_index", "preexisting_entry_unreadable_index"},
